@@ -6,8 +6,8 @@ Import ListNotations.
 Open Scope N_scope.
 
 Ltac wsimpl := cbn [w_fes w_mod w_err w_cur w_buf set_fes set_mod set_err set_cur set_buf
-  active inc bud shut nw timers ready tpanics set_active set_bud set_shut set_nw set_timers set_ready
-  set_tpanics x_w x_log say on_w fst snd] in *.
+  active inc bud shut nw timers ready tpanics catchf set_active set_bud set_shut set_nw set_timers set_ready
+  set_tpanics set_catchf x_w x_log say on_w fst snd] in *.
 
 Lemma mod_same w m x : w_mod (set_mod w m x) m = x.
 Proof. cbn [w_mod set_mod]. rewrite N.eqb_refl. reflexivity. Qed.
@@ -19,7 +19,7 @@ Proof. intros H. cbn [w_mod set_mod]. apply N.eqb_neq in H. rewrite H. reflexivi
 Definition item_mod (i : item) : option N :=
   match i with
   | ICall m _ _ _ | IReset m _ _ | ILog m _ _ | ISend m _ _ _ _ | ISched m _ _ _ | IShut m _ _
-  | IPanic m _ | IQuiet m | ICancel m _ => Some m
+  | IPanic m _ _ | IQuiet m | ICancel m _ | ISetCatch m _ _ => Some m
   | ISample _ _ => None
   end.
 
@@ -136,6 +136,7 @@ Proof.
   - eapply FrP_trans; [apply FrP_spend|apply FrP_buf_push; exact I].
   - eapply FrP_trans; [apply FrP_spend|apply FrP_request].
   - eapply FrP_trans; [apply FrP_spend|apply FrP_request].
+  - apply FrP_set; reflexivity.
 Qed.
 
 Lemma do_act_LogExt k now m who a s : LogExt m s (do_act k now m who a s).
